@@ -1,5 +1,5 @@
 """C14 — optional build features do not change results (structural clauses over 11 build configurations)."""
-from ..rules import features, engine, data, text, parser, validate, summary
+from ..rules import features, engine, data, text, parser, validate, summary, beliefs
 
 EXPL = ("Decides: SA-CFGDIFF: all MIR bodies reduced to their effects are compared across build configurations - debug assertions "
         "on/off change no body at all (dbg, strict_dbg, unsafe_dbg against their release twins), and each feature changes only the "
@@ -46,6 +46,10 @@ def run(ctx):
         # calls directly (a checked form that refuses an in-contract value, or admits an out-of-contract one, makes the twins disagree)
         ctx.cfg = "dbg"
         ctx.guard("C14", "contracts", lambda: validate.constructors(ctx, progs["dbg"]))
+    for c in [x for x in cfgs if x.endswith("dbg")]:
+        prog = progs[c]
+        ctx.cfg = c
+        ctx.guard("C14", "beliefs", lambda: beliefs.census(ctx, prog, None, floor=78))
     for c in [x for x in cfgs if x in ("unchecked", "unsafe")]:
         prog = progs[c]
         ctx.cfg = c
